@@ -286,9 +286,9 @@ func execBatch(intents []string, st *Stats) (final, outs, oracle []string) {
 						from = hs[i].String()
 						if hs[i].segID == o.segID {
 							// an older write of the same (key, version) inside the same internal
-							// transaction survived: it went through duplicateWrites, which
-							// commitAndSend emits after pendingWrites
-							tag = "F8:managed-batch-duplicate-order"
+							// transaction survived (the duplicateWrites / pendingWrites order of
+							// commitAndSend: finding F8, fixed by commit 2dbbdab)
+							from += " in the same internal transaction"
 						}
 						break
 					}
@@ -514,8 +514,8 @@ func genBatchSession(rng *rand.Rand, st *Stats) []string {
 		}
 		ops = append(ops, fmt.Sprintf("wb-new %s %d", kind, cts))
 		// clash-free sessions keep, per key, the explicit versions non-decreasing, so that equal
-		// versions are contiguous (the side condition of C27_last_wins_managed); free sessions
-		// do not (finding F8 shows up there)
+		// versions are contiguous; free sessions repeat (key, version) pairs in any pattern (the
+		// scenario of finding F8: duplicateWrites against pendingWrites)
 		free := rng.Intn(2) == 0
 		if params["free"] != "" {
 			free = params["free"] == "1"
@@ -716,20 +716,18 @@ func execSeq(intents []string, st *Stats) (final, outs, oracle []string) {
 		ph := s.phantom[id]
 		for _, h := range s.handed {
 			if h.val == v {
-				tag := "C30-unique"
+				note := ""
 				if h.phantom || ph || s.tainted {
-					tag = "F9:sequence-lease-before-commit"
+					// a lease transaction of one of the two objects was refused earlier: the
+					// signature of finding F9 (fixed by commit 54a0fc5)
+					note = " (after a refused lease transaction)"
 				}
-				fail(tag, fmt.Sprintf("number %d handed out by object %d was already handed out by object %d", v, id, h.id))
+				fail("C30-unique", fmt.Sprintf("number %d handed out by object %d was already handed out by object %d%s", v, id, h.id, note))
 				break
 			}
 		}
 		if s.hasLast[id] && v <= s.lastBy[id] {
-			tag := "C30-monotone"
-			if ph || s.lastPhan[id] || s.tainted {
-				tag = "F9:sequence-lease-before-commit"
-			}
-			fail(tag, fmt.Sprintf("object %d handed out %d after %d", id, v, s.lastBy[id]))
+			fail("C30-monotone", fmt.Sprintf("object %d handed out %d after %d", id, v, s.lastBy[id]))
 		}
 		s.handed = append(s.handed, seqHand{id, v, ph})
 		s.lastBy[id], s.hasLast[id], s.lastPhan[id] = v, true, ph
@@ -767,7 +765,7 @@ func execSeq(intents []string, st *Stats) (final, outs, oracle []string) {
 			dropObjs()
 			s.handed, s.tainted = nil, false
 			s.lastBy, s.hasLast, s.lastPhan = map[int]uint64{}, map[int]bool{}, map[int]bool{}
-			emit(fmt.Sprintf("reset fixed=%d key=%s", kvInt(kv, "fixed", 0), hx(s.key)), "ok")
+			emit(fmt.Sprintf("reset old=0 key=%s", hx(s.key)), "ok")
 		case "new":
 			id, _ := strconv.Atoi(w[1])
 			bw := atou(w[2])
@@ -964,8 +962,8 @@ func genSeq(rng *rand.Rand, n int, st *Stats) []string {
 
 func genSeqSession(rng *rand.Rand, st *Stats) []string {
 	var ops []string
-	ops = append(ops, "reset fixed=0")
-	// sessions without races never see ErrConflict: there the unchanged code must satisfy C30
+	ops = append(ops, "reset old=0")
+	// sessions with races see ErrConflict on lease transactions (the scenario of finding F9)
 	races := rng.Intn(2) == 0
 	if params["races"] != "" {
 		races = params["races"] == "1"
